@@ -56,6 +56,14 @@ CHECKS = {
             'Trusted: the reference algebra (operators strict, left operand first, literal aborts). Which code a Python '
             'exception maps to is not demanded. One known finding (#N/A literal directly followed by "/").',
             'DESIGN.md §5 C08'),
+    'C09': ('exhaustive enumeration of identifier-shaped names, host value types, call-site patterns, the documented and '
+            'not-yet-supported function lists and unknown names x syntactic positions, through Parser.parse; ' + K3,
+            'Every identifier of length <= 4/5 over an alphabet chosen to hit the lexer\'s token-class boundaries is set and '
+            'read back by identity and must be #NAME? when unset; all 156 documented names must resolve and be shadowable; '
+            'all 332 not-yet-supported names and all short unknown shapes must give #NAME? in 18 positions; custom functions '
+            'are observed through a call log.',
+            'Trusted: SUPPORTED_FORMULAS.md as the list of documented names; identifier grammar [A-Za-z_][A-Za-z0-9_]*.',
+            'DESIGN.md §5 C09'),
 }
 
 NOT_YET = 'check not built yet in this session (see DESIGN.md §5 for the planned bounded-exhaustive check)'
